@@ -9,6 +9,7 @@ import ExoModel.Rewrite
 import ExoModel.Equiv
 import ExoModel.Lemmas.Rewrites
 import ExoModel.Lemmas.WfRewrite
+import ExoModel.Lemmas.WfSound
 
 set_option linter.unusedSectionVars false
 namespace Exo.C04
@@ -109,5 +110,27 @@ theorem insert_pass_wf_anywhere (before : Bool) (path : Rw.Path) (Γ Γ' : Env) 
       simp only [Rw.insertPassBefore, if_true, Option.some.injEq] at hr
       subst hr
       simpa [wfL, wfS] using hws
+
+/-- **static scoping is sound** (call-free, configuration-read-free fragment): if the body is
+    well formed in the static environment `Γ` and the initial state provides what `Γ` promises
+    (a value for every control name, a view of the declared rank into an existing buffer for
+    every buffer name), the run never fails with `Err.scope` — no use of an unbound name, for
+    every data algebra and every input.  `_partial`: calls and configuration reads are not
+    covered (a missing configuration field is reported as `scope` by the semantics). -/
+theorem wf_noScope_partial (V : Type) [DataAlg V] (ext : String → List V → V) (Γ Γ' : Env)
+    (body : List Stmt) (σ : State V) (hA : Agree Γ σ) (hw : wfL Γ body = some Γ')
+    (hs : simpleL body = true) : execB ext body σ ≠ .error .scope := by
+  have h := (execL_noScope ext body Γ Γ' σ hA hw hs).1
+  unfold execB
+  cases h1 : execL ext body σ with
+  | error e => intro h2; simp [Except.map] at h2; subst h2; exact h h1
+  | ok s => intro h2; cases h2
+
+/-- the hypotheses are satisfiable: a loop writing `x[i]` over a one-dimensional buffer -/
+example :
+    let Γ : Env := [(⟨"n", 1⟩, none), (⟨"x", 2⟩, some 1)]
+    let body : List Stmt := [.loop ⟨"i", 3⟩ (.lit (.int 0)) (.read ⟨"n", 1⟩ [])
+      [.assign ⟨"x", 2⟩ [.read ⟨"i", 3⟩ []] (.lit (.data 1 1))] false]
+    (wfL Γ body).isSome = true ∧ simpleL body = true := by decide
 
 end Exo.C04
